@@ -124,6 +124,10 @@ class SK(object):
         if imp and imp[0] == 'mod':
             return ModRef(imp[1])
         if imp and imp[0] == 'ext':
+            if imp[1] == 'copy.deepcopy':
+                return BUILTINS['deepcopy']
+            if imp[1] in ('functools.reduce',):
+                raise Unsupported('functools.reduce')
             return ModRef('ext:' + imp[1])
         if imp and imp[0] == 'obj':
             if (imp[1], imp[2]) in self.m.classes:
